@@ -49,11 +49,18 @@ def native(args, timeout=900):
         return {"status": "error", "stderr": (p.stderr or "")[-2000:], "stdout": (p.stdout or "")[-500:]}
 
 
+VT_BOUNDED = {"sizing_sweep"}     # stand-ins that need mpmath: run under python3-vt with the repository on PYTHONPATH
+
+
 def run_bounded(prop, name, tier, seed):
     env = dict(os.environ)
     env["PYVC_REPO"] = REPO
+    py = NATIVE_PY
+    if name in VT_BOUNDED:
+        py = sys.executable
+        env["PYTHONPATH"] = REPO + os.pathsep + env.get("PYTHONPATH", "")
     try:
-        p = subprocess.run([NATIVE_PY, os.path.join(HERE, "bounded", "run.py"), name, tier, str(seed)],
+        p = subprocess.run([py, os.path.join(HERE, "bounded", "run.py"), name, tier, str(seed)],
                            capture_output=True, text=True, timeout=3600, env=env, cwd=HERE)
         return json.loads(p.stdout.strip().splitlines()[-1])
     except Exception as e:   # noqa: BLE001
@@ -191,6 +198,25 @@ def check_property(prop, tier, seed, jobs, verbose):
             else:
                 failed.setdefault((r["key"], r["ctx"]), []).append(o)
 
+    # ---- syntactic may-write closure (frames for every method, with or without contract) ---------------------
+    from pyvc import frames as FR
+    from contracts import frames as FE
+    frame_recs = []
+    if prop == "C19":
+        frame_recs = FR.check_expectations(repo, FE.READ_ONLY, [], {})
+    elif prop == "C13":
+        frame_recs = FR.check_expectations(repo, {}, FE.OPERANDS, {})
+    elif prop == "C15":
+        frame_recs = FR.check_expectations(repo, {}, [], FE.WRITERS)
+    frame_failed = []
+    for fr in frame_recs:
+        obligations += 1
+        if fr["status"] == "proved":
+            discharged += 1
+            by_backend["syntactic may-write closure"] = by_backend.get("syntactic may-write closure", 0) + 1
+        else:
+            frame_failed.append(fr)
+
     # ---- bounded stand-ins ----------------------------------------------------------------------
     bounded_recs = []
     viol_lines = []
@@ -228,6 +254,15 @@ def check_property(prop, tier, seed, jobs, verbose):
                 done_keys.add(kk)
                 native_jobs[kk] = tp.submit(native, ["search", r["key"], r["ctx"] or "-", tier, str(seed)])
     native_res = {k: f.result() for k, f in native_jobs.items()}
+
+    for fr in frame_failed:
+        kf = match_known(known, prop, fr["name"], fr)
+        if kf:
+            known_lines.append(f"KNOWN-FINDING: property={prop} {kf['what']}")
+            continue
+        violations += 1
+        path = write_replay(prop, fr["name"], {"frame_analysis": fr})
+        viol_lines.append(f"VIOLATION property={prop} replay={path} obligation={fr['name']} no-failing-input-found")
 
     # ---- undecided functions: native small-scope contract check stands in ---------------------------
     exit_undecided = False
@@ -323,7 +358,7 @@ def check_property(prop, tier, seed, jobs, verbose):
         "by_backend": by_backend, "solver_s": round(solver_s, 2),
         "bounded_stand_ins": bounded_recs,
         "undecided_functions": [lbl + ": " + r["unsupported"] for r, lbl in undecided],
-        "known_findings": known_lines,
+        "known_findings": sorted(set(known_lines)),
         "samples": samples or [{"note": "no discharged ensures/loop obligation to sample"}],
         "explanation": meta.get("explanation", "") or
         "contract-based deductive verification: VCs generated from the AST of the real source (re-read on every "
@@ -347,7 +382,7 @@ def check_property(prop, tier, seed, jobs, verbose):
     if verbose:
         for f in functions:
             print("   ", f["function"], f"{f['proved']}/{f['obligations']}", f"{f['wall_s']}s")
-    for ln in known_lines:
+    for ln in sorted(set(known_lines)):
         print(ln)
     if checker_errors:
         for e in checker_errors:
@@ -375,7 +410,10 @@ def match_known(known, prop, obligation, res):
         if wc:
             # the finding covers only witnesses of the recorded class; anything else is a new violation
             rec = res if isinstance(res, dict) else {}
-            if not all(rec.get(k) == v for k, v in wc.items()):
+            eqs = wc.get("eq", {k: v for k, v in wc.items() if k not in ("eq", "max")})
+            if not all(rec.get(k) == v for k, v in eqs.items()):
+                continue
+            if not all(isinstance(rec.get(k), (int, float)) and rec.get(k) <= v for k, v in wc.get("max", {}).items()):
                 continue
         return f
     return None
